@@ -221,6 +221,7 @@ class World:
         self.recency = {}  # u -> [lo, hi] logical fetch time interval
         self.t = 0
         self.lost_put = set()
+        self.moddisk = {}  # u -> dict(version, dir, compiled): the module file an earlier compile left (module_directory only)
         for ev in initial_events(cfg):
             self.step(ev)
         self.t = 0
@@ -306,13 +307,21 @@ class World:
                 return d
         return None
 
-    def _load_alt(self, d, u):
+    def _load_alts(self, d, u):
+        """allowed outcomes of compiling (d,u) now.  With a module directory the module file of an earlier
+        compile is a second, persistent cache: it may be served while the source's mtime is less than one
+        whole second after that compile (the same freshness rule)."""
         v, mt = self.files[(d, u)]
         if v == "X":
-            return ("compile-exc", d)
-        if v.startswith("U:"):
-            return ("read-exc", d)
-        return ("fresh", d, v)
+            alts = [("compile-exc", d)]
+        elif v.startswith("U:"):
+            alts = [("read-exc", d)]
+        else:
+            alts = [("fresh", d, v)]
+        md = self.moddisk.get(u)
+        if md is not None and mt < md["compiled"] + 1:
+            alts.append(("stale-mod", md["dir"], md["version"], md["compiled"]))
+        return alts
 
     def _get(self, ev, viols, exceptions):
         kind, u = ev
@@ -347,18 +356,18 @@ class World:
                     alts.append(("vanished",))
                 else:
                     if f[1] >= e["compiled"] + 1:
-                        alts.append(self._load_alt(e["dir"], u))
+                        alts.extend(self._load_alts(e["dir"], u))
                     elif f == e["valid"]:
                         alts.append(("same",))
                     else:
                         alts.append(("same",))
-                        alts.append(self._load_alt(e["dir"], u))
+                        alts.extend(self._load_alts(e["dir"], u))
         else:
             d = self._search(u)
             if d is None:
                 alts.append(("notfound",))
             else:
-                alts.append(self._load_alt(d, u))
+                alts.extend(self._load_alts(d, u))
         # ---- match the observation
         matched = None
         detail = None
@@ -371,12 +380,17 @@ class World:
                 if ok and ncons == 0:
                     matched = a
                     break
-            elif a[0] == "fresh" and obs[0] == "value":
+            elif a[0] in ("fresh", "stale-mod") and obs[0] == "value":
                 if kind == "has":
                     ok = obs[1] is True
+                    tobj = dict.get(self.lookup._collection, u)
+                    tobj = getattr(tobj, "value", tobj) if self.cfg["size"] != -1 else tobj
                 else:
                     ok = isinstance(obs[1], self.RealTemplate) and (e is None or obs[1] is not e.get("obj"))
-                if ok and ncons == 1:
+                    tobj = obs[1]
+                stamp = getattr(getattr(tobj, "module", None), "_modified_time", None)
+                want_stamp = self.clock.now if a[0] == "fresh" else a[3]
+                if ok and ncons == 1 and stamp == want_stamp and _render_of(tobj) == marker(a[1], u, a[2]):
                     matched = a
                     break
             elif a[0] == "vanished" and obs[0] in ("lookup-exc", "toplevel") and kind == "get":
@@ -432,15 +446,18 @@ class World:
             self.recency[u] = [self.t, self.t]
             exp_marker = put_marker(u, e["version"]) if e["kind"] == "put" else marker(e["dir"], u, e["version"])
             obj = e["obj"]
-        elif a[0] == "fresh":
-            _, d, v = a
+        elif a[0] in ("fresh", "stale-mod"):
+            d, v = a[1], a[2]
+            compiled_at = self.clock.now if a[0] == "fresh" else a[3]
+            if a[0] == "fresh" and self.cfg["moddir"]:
+                self.moddisk[u] = {"version": v, "dir": d, "compiled": self.clock.now}
             obj = obs[1] if kind == "get" else dict.get(self.lookup._collection, u)
             if kind == "has":
                 obj = getattr(obj, "value", obj) if self.cfg["size"] != -1 else obj
             self.cache[u] = {
                 "kind": "file",
                 "version": v,
-                "compiled": self.clock.now,
+                "compiled": compiled_at,
                 "dir": d,
                 "obj": obj,
                 "valid": self.files[(d, u)],
@@ -513,6 +530,8 @@ class World:
                 times.add(e["compiled"])
                 if e["valid"]:
                     times.add(e["valid"][1])
+        for md in self.moddisk.values():
+            times.add(md["compiled"])
         ts = sorted(times)
         m = {}
         acc = 0
@@ -536,7 +555,15 @@ class World:
         pts = sorted({p for iv in self.recency.values() for p in iv})
         rk = {p: i for i, p in enumerate(pts)}
         rec = tuple(sorted((u, rk[iv[0]], rk[iv[1]]) for u, iv in self.recency.items())) if self.cfg["size"] != -1 else ()
-        return (files, tuple(cache), rec, tuple(sorted(self.lost_put)))
+        mods = tuple(sorted((u, md["version"], md["dir"], rel[md["compiled"]]) for u, md in self.moddisk.items()))
+        return (files, tuple(cache), rec, tuple(sorted(self.lost_put)), mods)
+
+
+def _render_of(t):
+    try:
+        return t.render()
+    except BaseException as ex:  # noqa
+        return "EXC %s" % type(ex).__name__
 
 
 def _desc(x):
